@@ -60,6 +60,11 @@ LIB = {
             {"decl": "Widget *grow(int n)", "return_this": True},
             {"decl": "int m_tally"},
         ]},
+        # structs: as numpy dtype (default) and as Python class (the Python wrapper then creates a constructor from the members)
+        {"decl": "struct Point { int ix; double dy; };", "options": {"PY_struct_arg": "class"}},
+        {"decl": "struct Pair { int first; int second; };"},
+        {"decl": "int sumPoint(Point *p +intent(in))"},
+        {"decl": "int sumPair(Pair *p +intent(in))"},
         # a class inside a namespace: a member's selection travels through class, namespace and library
         {"decl": "namespace outer", "declarations": [
             {"decl": "void helperfn(int a)"},
